@@ -44,3 +44,59 @@ Definition visit_wf (f : fn_def) : bool :=
 
 Lemma visit_marks_before_recursing : visit_wf DepsGraph_visit = true.
 Proof. vm_compute. reflexivity. Qed.
+
+(* DepsGraph::insert: every dependency gets the asset as reverse dependency; an existing node has
+   its dependencies replaced and the reverse edges of the dependencies it LOST (old minus new)
+   removed. *)
+From AM Require Import Gen.Private.
+
+Definition insert_wf (f : fn_def) : bool :=
+  match fn_body f with
+  | [EFor (PIdent k None) (EMethod (EPath ["deps"]) "iter" [])
+       [ELetS (PIdent e None) (Some (EMethod (EMethod (EField (EPath ["self"]) "0") "entry" [EMethod (EPath [k']) "clone" []]) "or_default" [])) None;
+        ESemi (EMethod (EField (EPath [e']) "rdeps") "insert" [EMethod (EPath ["asset_key"]) "clone" []])];
+     EMatch (EMethod (EField (EPath ["self"]) "0") "entry" [EMethod (EPath ["asset_key"]) "clone" []])
+       [(PTupleStruct ["Entry"; "Vacant"] [PIdent _ None], None,
+         EBlock [ESemi (EMethod (EPath [_]) "insert" [ECall (EPath ["GraphNode"; "new"]) [EPath ["typ"]; EPath ["deps"]]])]);
+        (PTupleStruct ["Entry"; "Occupied"] [PIdent _ None], None, EBlock occ)]] =>
+      String.eqb k k' && String.eqb e e' &&
+      match occ with
+      | [ELetS (PIdent en None) (Some (EMethod (EPath [_]) "into_mut" [])) None;
+         ELetS (PIdent "removed" None)
+           (Some (EMethod (EMethod (EMethod (EField (EPath [en']) "deps") "difference" [ERef (EPath ["deps"])]) "cloned" []) "collect" [])) None;
+         ESemi (EAssign (EField (EPath [en'']) "deps") (EPath ["deps"]));
+         ESemi (EAssign (EField (EPath [en''']) "typ") (ECall (EPath ["Some"]) [EPath ["typ"]]));
+         EFor (PIdent key None) (EPath ["removed"]) body] =>
+          String.eqb en en' && String.eqb en en'' && String.eqb en en''' &&
+          existsb (fun x => existsb (fun y => match y with
+                                              | EMethod (EField (EPath [_]) "rdeps") "remove" [ERef (EPath ["asset_key"])] => true
+                                              | _ => false
+                                              end) (subexprs depth_fuel x)) body
+      | _ => false
+      end
+  | _ => false
+  end.
+
+Lemma graph_insert_as_modelled : insert_wf DepsGraph_insert = true.
+Proof. vm_compute. reflexivity. Qed.
+
+(* cache keys: equality of `dyn Key` compares type and id of BOTH sides, hashing feeds the type id
+   and then the id (same sequence as the derived impls of OwnedKey / BorrowedKey) *)
+Definition key_eq_wf (f : fn_def) : bool :=
+  match fn_body f with
+  | [EBinary "&&" (EBinary "==" (EMethod (EPath ["self"]) "type_id" []) (EMethod (EPath ["other"]) "type_id" []))
+                  (EBinary "==" (EMethod (EPath ["self"]) "id" []) (EMethod (EPath ["other"]) "id" []))] => true
+  | [EBinary "&&" (EBinary "==" (EMethod (EPath ["self"]) "id" []) (EMethod (EPath ["other"]) "id" []))
+                  (EBinary "==" (EMethod (EPath ["self"]) "type_id" []) (EMethod (EPath ["other"]) "type_id" []))] => true
+  | _ => false
+  end.
+
+Definition key_hash_wf (f : fn_def) : bool :=
+  match fn_body f with
+  | [ESemi (EMethod (EMethod (EPath ["self"]) "type_id" []) "hash" [EPath [h]]);
+     ESemi (EMethod (EMethod (EPath ["self"]) "id" []) "hash" [EPath [h']])] => String.eqb h h'
+  | _ => false
+  end.
+
+Lemma cache_keys_compare_type_and_id : key_eq_wf dynKey_eq = true /\ key_hash_wf dynKey_hash = true.
+Proof. vm_compute. split; reflexivity. Qed.
